@@ -683,6 +683,48 @@ class Verdicts:
         self.rep.violation("%s: %s" % (oracle, what), payload)
 
 
+def mixed_sum_stream(rep, rng, count):
+    """Oracle-only stream on the real objects: formal sums whose terms are partly pure and partly
+    mixed.  Evaluating the sum (default arguments) gives the sum of the mixed evaluations of its
+    terms - a pure term is doubled before it is added to a classical-quantum map, never added as
+    amplitudes."""
+    import numpy
+    from discopy.quantum import gates as G
+    from discopy.quantum.circuit import Measure, Discard, Id, qubit
+    bad = 0
+    for k in range(count):
+        n = 1
+        prep = G.Ket(rng.randint(0, 1)) >> rng.choice([G.H, G.X, G.Rx(0.25), G.Rz(0.125) >> G.H])
+        closed = rng.random() < 0.5
+        pure = prep >> G.Bra(rng.randint(0, 1)) if closed else prep
+        mixed = (prep >> Discard()) if closed else (prep >> rng.choice([Measure() >> G.ClassicalGate('id', 1, 1, [1, 0, 0, 1]) >> Discard(G.bit) if False else Id(qubit), G.X]))
+        if not closed:
+            # same type, one term made mixed by a (trace-preserving) measure-and-encode round trip
+            from discopy.quantum.circuit import Encode
+            mixed = prep >> Measure() >> Encode()
+        terms = [pure, mixed] if rng.random() < 0.5 else [mixed, pure]
+        rep.count("stream:mixed-sums")
+        what = None
+        try:
+            total = terms[0] + terms[1]
+            got = total.eval()
+            want = terms[0].eval(mixed=True) + terms[1].eval(mixed=True)
+            a = numpy.asarray(got.array, dtype=complex)
+            b = numpy.asarray(want.array, dtype=complex)
+            if type(got).__name__ != type(want).__name__ or a.shape != b.shape or not numpy.allclose(a, b, atol=ATOL):
+                what = "(pure + mixed).eval() = %s %r but the sum of the mixed evaluations is %s %r" % (
+                    type(got).__name__, list(a.flatten()), type(want).__name__, list(b.flatten()))
+        except Exception as exc:   # noqa
+            what = "evaluating a sum of a pure and a mixed circuit raised %s: %s" % (type(exc).__name__, exc)
+        if what:
+            bad += 1
+            rep.count("oracle:O_mixed_sum:FAIL")
+            if bad <= 3:
+                rep.violation("O_mixed_sum: " + what, {"oracle": "O_mixed_sum", "terms": [repr(t) for t in terms]})
+        else:
+            rep.count("oracle:O_mixed_sum:pass")
+
+
 def scalar_box_stream(rep, ver, rng, count):
     """Oracle-only stream on the real objects: every way the library spells a pure scalar
     (scalar(z), sqrt(z), their daggers) with real, negative and complex data, alone and in front
@@ -1000,6 +1042,7 @@ def run(tier, seed):
                              "of the amplitudes of Ket(0..0) >> c", c, [4, p], c["impl"][("obs", 4)],
                              c["model"][("obs", 4)])
     scalar_box_stream(rep, ver, rng, 120 if tier == "quick" else 1200)
+    mixed_sum_stream(rep, rng, 40 if tier == "quick" else 500)
     rep.extra["oracle_failures"] = ver.fails
     rep.extra["impl_counts"] = dict(ci.COUNTS, unknown_classes=list(ci.UNKNOWN_CLASSES))
     settle(rep, ci, proof_ok)
